@@ -3,6 +3,7 @@ import CogentModel.Model.Csv
 import CogentModel.Model.CastStr
 import CogentModel.Model.TableOps
 import CogentModel.Spec.TableRows
+import CogentModel.Gen.C20Args
 open CogentModel CogentModel.TableOps
 
 /-! JSON protocol of the C20 driver.
@@ -203,6 +204,29 @@ def delimOfJ (j : J) : Except String Char := do
   | [c] => pure c
   | _ => throw "delimiter must be one character"
 
+/-- a `columns=`-style argument: null | "name" | [names] | {"tuple": [names]} -/
+def pvOfJ : J → Except String TableArgs.PV
+  | .null => pure .none
+  | .str s => pure (.str s)
+  | j@(.obj _) => do pure (.tup (← strsOfJ (← j.get "tuple")))
+  | j => do pure (.list (← strsOfJ j))
+
+def optPvOfJ (j : J) (k : String) : Except String TableArgs.PV :=
+  match j.get? k with
+  | some x => pvOfJ x
+  | none => pure .none
+
+/-- `inner_join(other, columns_self, columns_other, use_index, col_prefix)` with the key columns resolved by the
+TRANSLATED statements of the method (`Gen.C20Args.joinKeys`) -/
+def innerJoinArgs (t u : Table) (cs co : TableArgs.PV) (useIndex : Bool) (pre : String) : Except String Table := do
+  let (ks, ko, mask) ← Gen.C20Args.joinKeys t.header u.header t.index u.index cs co useIndex
+  let r ← t.innerJoin u ks.iter ko.iter pre
+  -- `output_mask` of the translated statements = the columns the table model keeps
+  if r.header ≠ t.header ++ mask.map (pre ++ ·) then throw "output_mask differs from the model's kept columns"
+  pure r
+
+def argOf (c : TableArgs.MethodCall) (k : String) : Option TableArgs.Arg := (c.kw.find? (·.1 == k)).map (·.2)
+
 def handle (cmd : String) (j : J) : Except String J :=
   match cmd with
   | "csv_write" => do
@@ -274,6 +298,31 @@ def handle (cmd : String) (j : J) : Except String J :=
         | .null => pure none
         | x => do pure (some (← x.toStr))
       pure (resJ (t.transposed (← (← j.get "new").toStr) sel))
+    | "sorted_args" => do
+      -- the key columns / reversed columns as the TRANSLATED statements of `Table.sorted` resolve them
+      match Gen.C20Args.sortedColumns t.header [] (← optPvOfJ j "columns") (← optPvOfJ j "reverse") with
+      | .error e => pure (.obj [("err", .str e)])
+      | .ok (cols, rev) => pure (resJ (t.sorted (some cols.iter) rev.iter))
+    | "inner_join_args" => do
+      let u ← tableOfJ (← j.get "u")
+      let ui ← match j.get? "use_index" with | some b => b.toBool | none => pure Gen.C20Args.joinKeysDefaultUseIndex
+      let pre ← match j.get? "col_prefix" with | some (.str p) => pure p | _ => pure "right_"
+      pure (resJ (innerJoinArgs t u (← optPvOfJ j "cs") (← optPvOfJ j "co") ui pre))
+    | "joined_args" => do
+      let u ← tableOfJ (← j.get "u")
+      let ij ← match j.get? "inner" with | some b => b.toBool | none => pure Gen.C20Args.joinedCallDefaultInnerJoin
+      let pre ← match j.get? "col_prefix" with | some (.str p) => pure p | _ => pure Gen.C20Args.joinedCallDefaultColPrefix
+      match Gen.C20Args.joinedCall (← optPvOfJ j "cs") (← optPvOfJ j "co") ij pre with
+      | .error e => pure (.obj [("err", .str e)])
+      | .ok call =>
+        if call.name == "cross_join" then
+          let p := match argOf call "col_prefix" with | some (.str p) => p | _ => "right_"
+          pure (resJ (pure (t.crossJoin u p)))
+        else if call.name == "inner_join" then
+          match argOf call "columns_self", argOf call "columns_other", argOf call "use_index", argOf call "col_prefix" with
+          | some (.pv cs), some (.pv co), some (.bool ui), some (.str p) => pure (resJ (innerJoinArgs t u cs co ui p))
+          | _, _, _, _ => throw "joined: unexpected arguments of the forwarded inner_join"
+        else throw s!"joined forwards to {call.name}"
     | "sorted" => do
       let r := t.sorted (← optStrsOfJ (← j.get "columns")) (← strsOfJ (← j.get "reverse"))
       -- also return the (transformed) key sequence so that tie order need not be compared
